@@ -20,7 +20,7 @@ RULE = (
     "distinct = program hash (+ evil mode); non-trivial = at least 2 flushes."
 )
 ASSUMPTIONS = ["the pending-batch set is derived from what tasks yielded, i.e. exact for yield-only programs"]
-UNIT_TIMEOUT = {"quick": 240, "thorough": 2400}
+UNIT_TIMEOUT = {"quick": 150, "thorough": 2400}
 
 BASE = dict(
     p_shared=0.3,
